@@ -421,5 +421,8 @@ def run(chk):
     chk.guard(rule_components, chk, prog)
     chk.guard(rule_node_groups, chk, prog)
     chk.guard(rule_route_clears, chk, prog)
+    from ..rules import mirrors
+    r_m = chk.rule("MIRROR", "the x / y accessors of the planarisation events stay mirror images (tables/mirrors.json)", floor=1)
+    mirrors.check(r_m, prog, ["dialect::Event::"])
     from .c14 import rule_tree_flip
     chk.guard(rule_tree_flip, chk, prog)          # bounds of a flipped / translated tree: what keeps sibling trees off each other
